@@ -13,7 +13,7 @@ import numpy as np
 
 LEVEL = 'exploration'
 ASSUMPTIONS = [
-    'catalogue of 28 parameter configs (all four kinds, singleton / negative / huge / tiny ranges, LINEAR/LOG/REVERSE_LOG, >10 discrete values, defaults incl. falsy ones)',
+    'catalogue of 30 parameter configs (all four kinds, singleton / negative / huge / tiny ranges, LINEAR/LOG/REVERSE_LOG, >10 discrete values, defaults incl. falsy ones)',
     'an algorithm may refuse a configuration with an error; refusals are tallied per designer and a designer that refuses everything is listed as vacuous',
     'numpy random sources are owned: pinned seed, plus every single extreme-draw deviation among the first N draws (N in coverage); jax PRNG streams cannot be scripted, their seed is an enumerated configuration value',
     'GP designers (thorough tier only) run on top of a stand-in for the equinox package (installed equinox does not import on the installed jax)',
@@ -37,6 +37,7 @@ def catalogue():
       'bool': ss.get('p'), 'bool2': ss.get('p'),
       'dlogtiny': F('p', bounds=(1e-200, 1e-190), scale_type=S.LOG), 'dloghuge': F('p', bounds=(1e160, 1e170), scale_type=S.LOG),
       'drlogtiny': F('p', bounds=(1e-200, 1e-190), scale_type=S.REVERSE_LOG), 'drloghuge': F('p', bounds=(1e160, 1e170), scale_type=S.REVERSE_LOG),
+      'ibig': F('p', bounds=(16777210, 16777219)), 'inegbig': F('p', bounds=(-1000000090, -1000000001)),   # bounds float32 cannot represent
       'dlog0': F('p', bounds=(0.0, 1.0), scale_type=S.LOG),             # log scale with lower bound 0: must be refused or handled
       'd01defout': F('p', bounds=(0.0, 1.0), default_value=5.0),         # default outside the bounds
   }
@@ -441,7 +442,12 @@ def run(ctx):
   svc_spaces = singles[:: (3 if q else 1)] + pairs[:: (8 if q else 2)] + bools
   for i in range(0, len(svc_spaces), 2):
     tasks.append(('shard_service', {'spaces': svc_spaces[i:i + 2], 'algos': ALGOS_LIGHT, 'rounds': 2}))
-  if not q:
+  if q:
+    # a thin slice of the two GP designers (each suggest call fits a model and runs the acquisition optimiser)
+    for sp in [('d01',), ('d-55', 'c5')]:
+      for dn in ('gp_bandit', 'gp_ucb_pe'):
+        tasks.insert(0, ('shard', {'tier': 'thorough', 'spaces': [sp], 'designers': [dn], 'batches': [2], 'patterns': ['values'], 'rounds': 3, 'seed': ctx.seed + 1, 'deviations': 0}))
+  else:
     gp_spaces = [('d01',), ('d-55', 'c5'), ('dlog', 'i-22'), ('x12', 'bool'), ('drlog', 'x2'), ('i015',), ('c5',), ('dsingle', 'd01')]
     for sp in gp_spaces:
       tasks.append(('shard', {'tier': 'thorough', 'spaces': [sp], 'designers': ['gp_bandit', 'gp_ucb_pe'], 'batches': [1, 2], 'patterns': ['values', 'infeasible-mix'],
